@@ -121,9 +121,17 @@ def run(ctx):
                 fn_len_checked = b.name in ('asefile::reader::AseReader::take_bytes', 'asefile::reader::AseReader::read_vec',
                                             'asefile::reader::AseReader::unzip', 'asefile::reader::AseReader::string',
                                             'asefile::reader::AseReader::skip_reserved')
-                if fn_len_checked:
+                # .. the reservation is tied to the requested length (min(requested, CAP), or a local sized by it): on success the buffer
+                # holds exactly that many bytes, so what the caller keeps is backed by delivered data.  A reservation that ignores the
+                # request (seed C12-o: min(usize::MAX, 1 MiB) for every inflated cel, 1 MiB kept per 1x1 cel) is not
+                tied = st is not None and any(is_param(x) and x[1] >= 2 for x in walk(st))
+                if fn_len_checked and (tied or b.name.endswith(('::string', '::skip_reserved'))):
                     verdict = 'input-justified'
                     why = 'transient buffer of at most %d bytes that is filled with delivered bytes or dropped (exact read / length check)' % bytes_
+                elif fn_len_checked:
+                    verdict = 'declared-only'
+                    why = ('%d bytes reserved on every call whatever length is requested, and handed to the caller with the data: kept once per cel / '
+                           'tileset, not backed by input' % bytes_)
                 else:
                     verdict = 'bounded-constant'
                     why = 'at most %d elements x %d bytes = %d bytes' % (rng[1], esz, bytes_)
